@@ -18,7 +18,7 @@ RULE = ("each run = a reference world plus transformed twins: identical rebuild,
         "uncontrolled and finite-rate greedy parties; non-trivial = a non-identity permutation with >=1 binding constraint "
         "(some pilot below its station maximum while demand remains); distinct = history signature + transformation set")
 PROBES = ["rebuild_pair", "registration_permuted", "constraints_permuted", "sessions_permuted", "shift_pair",
-          "hashseed_fresh_interpreter", "sorted_finite_world", "guard_band_skips", "json_clone_pair", "deepcopy_pair", "json_clone_permuted_pair", "second_life_pair",
+          "hashseed_fresh_interpreter", "sorted_finite_world", "guard_band_skips", "json_clone_pair", "deepcopy_pair", "one_noisy_battery_world", "json_clone_permuted_pair", "second_life_pair",
           "uninterrupted_world"]
 FAULT_DIMENSION = "reordering / hash seed / time shift as metamorphic schedule dimension (no faults injected)"
 ASSUMPTIONS = ["sorted parties are compared under permutations only when every priority key gap and feasibility margin of the "
@@ -46,6 +46,14 @@ def gen(rs, tier):
                 e_ += 1
             used.add(e_)
             s_["est_departure"] = e_
+    rn = sub(rs, "one_noisy")
+    l2 = [s_ for s_ in sc["sessions"] if s_["battery"]["type"] == "Linear2Stage"]
+    if sc["party"]["kind"] in ("scripted", "uncontrolled") and len(l2) >= 2 and rn.random() < 0.25:
+        # exactly one battery of the world is noisy: it is the only consumer of the environment's random stream, so its draws -
+        # hence all outputs - do not depend on which (noise-free) batteries are registered or charged before it
+        rn.choice(l2)["battery"]["noise"] = rn.choice([0.3, 1.0])
+        sc["tapes"]["noise"] = "prng"
+        sc["one_noisy_battery"] = True
     sc["party"]["quiet_prefix"] = True
     sc["network"]["violation_tolerance"] = 1e-5
     sc["network"]["relative_tolerance"] = 1e-7
@@ -175,6 +183,8 @@ def check(sc):
             out.add("C10/" + name, d)
 
     # 1. identical rebuild; and a JSON clone of the freshly built simulator (equal inputs by construction)
+    if sc.get("one_noisy_battery"):
+        out.probe("one_noisy_battery_world")
     pair("rebuild_pair", copy.deepcopy(sc), 0.0)
     if sc["party"].get("uninterrupted"):
         out.probe("uninterrupted_world")
@@ -187,7 +197,10 @@ def check(sc):
     # the same inputs, but the network / event queue / EV objects / algorithm object have already served an earlier run
     sc2 = copy.deepcopy(sc)
     sc2["second_life"] = {k: r.random() < 0.7 for k in ("network", "queue", "evs", "algo")}
-    pair("second_life_pair", sc2, 0.0)
+    if not sc.get("one_noisy_battery"):
+        # (with a noisy battery the earlier run has consumed part of the environment's random stream: the second life legitimately
+        # sees other draws)
+        pair("second_life_pair", sc2, 0.0)
     perm_ok = True
     if sorted_party:
         perm_ok = sorted_conclusive(sc, tr)
